@@ -37,6 +37,7 @@ const (
 	specID      = "ETH1"
 	lavaChainID = "lava"
 	curEpoch    = 100
+	prevEpoch   = 90 // older epoch that is still valid for use
 	keepBlocks  = 20 // blocked epoch height = 80
 	oldEpoch    = 70
 	maxCU       = 100 // must equal MaxCU in specs/Trace_ProviderVerify.cfg
@@ -45,11 +46,13 @@ const (
 )
 
 type step struct {
-	Signer  string `json:"signer"`  // "A" | "B"
-	Sid     uint64 `json:"sid"`     // session id
-	Kind    string `json:"kind"`    // corruption kind
-	Resign  bool   `json:"resign"`  // corrupted request is (re)signed by the signer
-	Pairing string `json:"pairing"` // outcome of VerifyPairing for an unregistered consumer
+	Signer  string `json:"signer"`       // "A" | "B"
+	Sid     uint64 `json:"sid"`          // session id
+	Kind    string `json:"kind"`         // corruption kind
+	Resign  bool   `json:"resign"`       // corrupted request is (re)signed by the signer
+	Pairing string `json:"pairing"`      // chain's pairing answer for the request's epoch
+	Epoch   string `json:"epoch"`        // "cur" | "prev": the (valid) epoch the request is made for
+	PairOth string `json:"pairingother"` // chain's pairing answer for the other valid epoch
 }
 
 type sess struct {
@@ -67,17 +70,23 @@ type cstate struct {
 
 type proof struct {
 	C   string `json:"c"`
+	Ep  string `json:"ep"` // epoch the proof is claimed for (argument of SendNewProof)
 	Sid uint64 `json:"sid"`
 	Cu  uint64 `json:"cu"`
 }
 
 type rec struct {
-	Ev      string `json:"ev"`
-	Signer  string `json:"signer"`
-	Sid     uint64 `json:"sid"`
-	Kind    string `json:"kind"`
-	Resign  bool   `json:"resign"`
-	Pairing string `json:"pairing"`
+	Ev      string            `json:"ev"`
+	Signer  string            `json:"signer"`
+	Sid     uint64            `json:"sid"`
+	Kind    string            `json:"kind"`
+	Resign  bool              `json:"resign"`
+	Pairing string            `json:"pairing"`
+	Epoch   string            `json:"epoch"`
+	PairOth string            `json:"pairingother"`
+	Ep      string            `json:"ep"`     // epoch named by the request as sent: "cur" | "prev" | "old"
+	PairBy  map[string]string `json:"pairby"` // chain's pairing answer per valid epoch
+	Asked   []string          `json:"asked"`  // epochs for which VerifyPairing was called during the step
 	// ground truth about the request actually sent (measured by the harness, not by the provider)
 	Nil     bool   `json:"nil"`
 	ProvOk  bool   `json:"provok"`
@@ -97,22 +106,22 @@ type rec struct {
 	Err    string `json:"err"`
 	VP     int    `json:"vpcalls"` // VerifyPairing calls during the step
 	// provider state after the step
-	A      cstate  `json:"A"`
-	B      cstate  `json:"B"`
-	X      cstate  `json:"X"`      // state of the recovered address when it is neither A nor B
-	Xpre   cstate  `json:"Xpre"`   // ... before the call (the same tampered bytes recover the same address again)
-	Proofs []proof `json:"proofs"` // proofs handed to the reward server during this step
-	Panic  bool    `json:"panic"`
-	PanicS string  `json:"panics,omitempty"`
-	Beh    int     `json:"beh"`
+	St     map[string]map[string]cstate `json:"st"`     // epoch ("cur","prev") -> consumer ("A","B") -> state
+	X      cstate                       `json:"X"`      // state of the recovered address when it is neither A nor B
+	Xpre   cstate                       `json:"Xpre"`   // ... before the call (the same tampered bytes recover the same address again)
+	Proofs []proof                      `json:"proofs"` // proofs handed to the reward server during this step
+	Panic  bool                         `json:"panic"`
+	PanicS string                       `json:"panics,omitempty"`
+	Beh    int                          `json:"beh"`
 }
 
 // ---- mocks -----------------------------------------------------------------------------------
 
 type stateTracker struct {
 	mu      sync.Mutex
-	outcome string
+	outcome map[uint64]string // per epoch asked
 	vpCalls int
+	asked   []uint64
 }
 
 func (s *stateTracker) LatestBlock() int64 { return curEpoch + 5 }
@@ -124,7 +133,8 @@ func (s *stateTracker) VerifyPairing(ctx context.Context, consumerAddress, provi
 	s.mu.Lock()
 	defer s.mu.Unlock()
 	s.vpCalls++
-	switch s.outcome {
+	s.asked = append(s.asked, epoch)
+	switch s.outcome[epoch] {
 	case "valid":
 		return true, 3, consumerAddress, nil // project id = consumer address
 	case "invalid":
@@ -142,7 +152,7 @@ type rewardRec struct {
 
 func (r *rewardRec) SendNewProof(ctx context.Context, p *pairingtypes.RelaySession, epoch uint64, consumerAddr, apiInterface string) (uint64, bool) {
 	r.mu.Lock()
-	r.proofs = append(r.proofs, proof{C: consumerAddr, Sid: p.SessionId, Cu: p.CuSum})
+	r.proofs = append(r.proofs, proof{C: consumerAddr, Ep: epochName(epoch), Sid: p.SessionId, Cu: p.CuSum})
 	r.mu.Unlock()
 	select {
 	case r.ch <- struct{}{}:
@@ -160,9 +170,19 @@ type account struct {
 	addr sdk.AccAddress
 }
 
-func readState(psm *lavasession.ProviderSessionManager, project string) cstate {
+func epochName(e uint64) string {
+	switch e {
+	case curEpoch:
+		return "cur"
+	case prevEpoch:
+		return "prev"
+	}
+	return "old"
+}
+
+func readState(psm *lavasession.ProviderSessionManager, epoch uint64, project string) cstate {
 	cs := cstate{Sess: []sess{}}
-	pswc, err := psm.IsActiveProject(curEpoch, project)
+	pswc, err := psm.IsActiveProject(epoch, project)
 	if err != nil || pswc == nil {
 		return cs
 	}
@@ -234,17 +254,22 @@ func main() {
 	for bi, beh := range behs {
 		psm := lavasession.NewProviderSessionManager(endpoint, keepBlocks)
 		psm.UpdateEpoch(curEpoch)
-		st := &stateTracker{outcome: "valid"}
+		st := &stateTracker{outcome: map[uint64]string{}}
 		rw := &rewardRec{ch: make(chan struct{}, 64)}
 		srv := &rpcprovider.RPCProviderServer{}
 		srv.ServeRPCRequests(ctx, endpoint, chainParser, rw, psm, &chaintracker.DummyChainTracker{}, provKey, nil, false, chainRouter,
 			st, provAddr, lavaChainID, 0, nil, nil, nil, nil, nil, 2, nil, nil, false)
 
-		emit := func(r *rec, xaddr string) {
-			r.A = readState(psm, accs["A"].addr.String())
-			r.B = readState(psm, accs["B"].addr.String())
+		emit := func(r *rec, xaddr string, xepoch uint64) {
+			r.St = map[string]map[string]cstate{}
+			for _, e := range []uint64{curEpoch, prevEpoch} {
+				r.St[epochName(e)] = map[string]cstate{
+					"A": readState(psm, e, accs["A"].addr.String()),
+					"B": readState(psm, e, accs["B"].addr.String()),
+				}
+			}
 			if xaddr != "" {
-				r.X = readState(psm, xaddr)
+				r.X = readState(psm, xepoch, xaddr)
 			} else {
 				r.X = cstate{Sess: []sess{}}
 			}
@@ -257,24 +282,37 @@ func main() {
 				} else {
 					c = "X"
 				}
-				r.Proofs = append(r.Proofs, proof{C: c, Sid: p.Sid, Cu: p.Cu})
+				r.Proofs = append(r.Proofs, proof{C: c, Ep: p.Ep, Sid: p.Sid, Cu: p.Cu})
 			}
 			rw.proofs = nil
 			rw.mu.Unlock()
 			st.mu.Lock()
 			r.VP = st.vpCalls
 			st.vpCalls = 0
+			r.Asked = []string{}
+			for _, e := range st.asked {
+				r.Asked = append(r.Asked, epochName(e))
+			}
+			st.asked = nil
+			if r.PairBy == nil {
+				r.PairBy = map[string]string{"cur": "valid", "prev": "valid"}
+			}
 			st.mu.Unlock()
 			r.Beh = bi
 			out.Emit(*r)
 		}
 		r0 := rec{Ev: "reset", Xpre: cstate{Sess: []sess{}}}
-		emit(&r0, "")
+		emit(&r0, "", 0)
 
 		for _, s := range beh {
 			acc := accs[s.Signer]
 			// the valid next request of this consumer / session, relative to the provider's real state
-			cur := readState(psm, acc.addr.String())
+			reqEpoch := uint64(curEpoch)
+			othEpoch := uint64(prevEpoch)
+			if s.Epoch == "prev" {
+				reqEpoch, othEpoch = prevEpoch, curEpoch
+			}
+			cur := readState(psm, reqEpoch, acc.addr.String())
 			var cu, rn uint64
 			for _, x := range cur.Sess {
 				if x.Sid == s.Sid {
@@ -287,9 +325,10 @@ func main() {
 			}
 			rs := &pairingtypes.RelaySession{
 				SpecId: specID, SessionId: s.Sid, CuSum: cu + relayCU, Provider: provAddr.String(), RelayNum: rn + 1,
-				Epoch: curEpoch, LavaChainId: lavaChainID,
+				Epoch: int64(reqEpoch), LavaChainId: lavaChainID,
 			}
-			r := rec{Ev: "relay", Signer: s.Signer, Sid: s.Sid, Kind: s.Kind, Resign: s.Resign, Pairing: s.Pairing,
+			r := rec{Ev: "relay", Signer: s.Signer, Sid: s.Sid, Kind: s.Kind, Resign: s.Resign, Pairing: s.Pairing, Epoch: s.Epoch, PairOth: s.PairOth,
+				PairBy:  map[string]string{epochName(reqEpoch): s.Pairing, epochName(othEpoch): s.PairOth},
 				ParseOk: true, AddonOk: true, SeenOk: true}
 			rehash := true // content hash is computed after the RelayData corruption
 			// --- corruptions of RelayData
@@ -340,7 +379,7 @@ func main() {
 				// tampered in flight: signed first (valid request), corrupted afterwards
 				saved := *rs
 				good := saved
-				good.SpecId, good.Provider, good.LavaChainId, good.Epoch = specID, provAddr.String(), lavaChainID, curEpoch
+				good.SpecId, good.Provider, good.LavaChainId, good.Epoch = specID, provAddr.String(), lavaChainID, int64(reqEpoch)
 				good.CuSum, good.RelayNum = cu+relayCU, rn+1
 				good.ContentHash = sigs.HashMsg(data.GetContentHashData())
 				sig, err := sigs.Sign(acc.key, good)
@@ -406,6 +445,7 @@ func main() {
 				r.SpecOk = rs.SpecId == specID
 				r.LavaOk = rs.LavaChainId == lavaChainID
 				r.EpochOk = uint64(rs.Epoch) > curEpoch-keepBlocks
+				r.Ep = epochName(uint64(rs.Epoch))
 				r.CuSum, r.RelayN, r.ReqSid = rs.CuSum, rs.RelayNum, rs.SessionId
 				if req.RelayData != nil {
 					r.HashOk = string(rs.ContentHash) == string(sigs.HashMsg(data.GetContentHashData()))
@@ -423,12 +463,12 @@ func main() {
 				r.Who = "none"
 			}
 			if xaddr != "" {
-				r.Xpre = readState(psm, xaddr)
+				r.Xpre = readState(psm, uint64(rs.Epoch), xaddr)
 			} else {
 				r.Xpre = cstate{Sess: []sess{}}
 			}
 			st.mu.Lock()
-			st.outcome = s.Pairing
+			st.outcome = map[uint64]string{reqEpoch: s.Pairing, othEpoch: s.PairOth}
 			st.mu.Unlock()
 			// --- the call
 			func() {
@@ -458,10 +498,17 @@ func main() {
 			} else {
 				time.Sleep(200 * time.Microsecond)
 			}
-			emit(&r, xaddr)
+			xe := uint64(0)
+			if req.RelaySession != nil {
+				xe = uint64(rs.Epoch)
+			}
+			if r.Ep == "" {
+				r.Ep = "old"
+			}
+			emit(&r, xaddr, xe)
 		}
 		time.Sleep(2 * time.Millisecond)
 		rend := rec{Ev: "end", Xpre: cstate{Sess: []sess{}}}
-		emit(&rend, "")
+		emit(&rend, "", 0)
 	}
 }
